@@ -97,8 +97,26 @@ def thunk(c, pose, num):
     raise ValueError(call_)
 
 
+def prelude(rng):
+    """valid operations on objects obtained from the library's named constructors, mutated in place: whatever they share with
+    the library (a cached zero vector, a shared origin ...) must not weaken a later validation"""
+    from geom import G
+    steps = [lambda: Line(G.Vector.zero(), G.x_unit_vector()).move(Vector(0, 0, 1)),
+             lambda: G.origin().move(Vector(1, 2, 3)),
+             lambda: G.Vector.zero().__setitem__(2, 1),
+             lambda: G.x_axis().move(Vector(0, 1, 0)),
+             lambda: G.xy_plane().move(Vector(0, 0, 2)),
+             lambda: G.z_unit_vector().__setitem__(0, 5),
+             lambda: Line(G.origin().pv(), Vector(0, 1, 0)).move(Vector(1, 0, 0))]
+    rng.shuffle(steps)
+    for f in steps[:rng.randint(1, 4)]:
+        call(f)
+
+
 def replay_case(case, tag, rng, tier):
     out = {"mism": [], "skipped": {}, "calls": 0, "nontrivial": not case["valid"]}
+    if rng.random() < 0.3:
+        prelude(rng)
     pose = IDENT if rng.random() < 0.4 else random_pose(rng, pts=[[p[0], p[1], p[2], 1] for p in case.get("pts", [])])
     num = rng.choice(("float", "int"))
 
